@@ -65,6 +65,13 @@ where
         let processed_message = match group.process_message(&self.provider, protocol_message) {
             Ok(processed_message) => processed_message,
             Err(ProcessMessageError::ValidationError(ValidationError::WrongEpoch)) => {
+                // Only commits compete for an epoch (MIP-03). A proposal from another epoch
+                // must never be treated as a candidate for rolling the group back.
+                if content_type != ContentType::Commit {
+                    return Err(Error::ProcessMessageOther(
+                        "message epoch differs from the group's epoch".to_string(),
+                    ));
+                }
                 return Err(Error::ProcessMessageWrongEpoch(msg_epoch));
             }
             Err(ProcessMessageError::ValidationError(ValidationError::CannotDecryptOwnMessage)) => {
